@@ -57,8 +57,10 @@ def shift_down(o, off):
 
 def one_run(parser, matcher, compiler, idg, src, stop, M=None, check_g13=True, case=None, hold=None):
     parser.stop_at_first_error = stop
-    off = idg._id_counter if hasattr(idg, "_id_counter") else None
-    with probe.observing() as obs:
+    # ids already drawn from this generator = the offset to subtract (counted by the get_next_id wrapper;
+    # no private attribute of the generator is read)
+    off = getattr(idg, "_vf_drawn", 0)
+    with probe.observing(ids=True) as obs:
         try:
             d = parser.parse(src, matcher) if matcher is not None else parser.parse(src)
             if hold is not None:
@@ -78,6 +80,7 @@ def one_run(parser, matcher, compiler, idg, src, stop, M=None, check_g13=True, c
             res = ("err", [(dict(x.location), str(x), type(x).__name__) for x in e.errors])
         except ParserError as e:
             res = ("stop", (dict(e.location), str(e), type(e).__name__))
+    idg._vf_drawn = off + sum(1 for d in obs.ids if d[2] == id(idg))      # harness-owned counter kept on the generator
     if M is not None and check_g13 and obs.logs:
         log = obs.logs[-1]
         o = observe.Obs()
